@@ -936,6 +936,26 @@ class GAM(Core, MetaTermMixin):
         explained deviancce score: np.array() (n_samples,)
 
         """
+        if not self._is_fitted:
+            raise AttributeError('GAM has not been fitted. Call fit first.')
+
+        y = check_y(y, self.link, self.distribution, verbose=self.verbose)
+        X = check_X(
+            X,
+            n_feats=self.statistics_['m_features'],
+            edge_knots=self.edge_knots_,
+            dtypes=self.dtype,
+            features=self.feature,
+            verbose=self.verbose,
+        )
+        check_X_y(X, y)
+        if weights is not None:
+            weights = np.array(weights).astype('f').ravel()
+            weights = check_array(
+                weights, name='sample weights', ndim=1, verbose=self.verbose
+            )
+            check_lengths(y, weights)
+
         r2 = self._estimate_r2(X=X, y=y, mu=None, weights=weights)
 
         return r2['explained_deviance']
